@@ -237,9 +237,15 @@ def run_kani(ws, scratch, crate, harnesses, jobs=8, harness_timeout=300, extra_a
     env.pop("RUSTFLAGS", None)
     t0 = time.time()
     overall = harness_timeout * max(1, (len(harnesses) + jobs - 1) // jobs) + 900
+    mem_gb = int(os.environ.get("VERIF_CBMC_MEM_GB", "16"))
+
+    def _cap():
+        # per-process address-space cap (inherited by rustc, kani-driver and every cbmc): an out-of-memory cbmc then
+        # fails by itself (-> UNDECIDED) instead of driving the machine into the OOM killer
+        resource.setrlimit(resource.RLIMIT_AS, (mem_gb << 30, mem_gb << 30))
     try:
         p = subprocess.run(cmd, cwd=ws, env=env, stdout=subprocess.PIPE, stderr=subprocess.STDOUT, text=True,
-                           timeout=overall)
+                           timeout=overall, preexec_fn=_cap)
         raw = p.stdout
         rc = p.returncode
     except subprocess.TimeoutExpired as e:
